@@ -129,6 +129,19 @@ def run_case(cs):
         elif r.exit != 21 or not all(any("found new file" in l and l.endswith(new) for l in r.text.split("\n")) for new in ren.values()):
             cs.violation("without-dr-not-reported-new", {"kind": "no-dr", "cmd": "verify", "exit": r.exit}, {**ctx, "out": r.text[-500:]})
         shutil.rmtree(work)
+    if rng.random() < 0.25:
+        # an intermediate run without -dr: it reports the old names missing (exit 10) or, with -sf, just records the new
+        # names; the rename detection of the following -dr run must still connect the names
+        if rng.random() < 0.5:
+            ri = drive.run("create", [root] + world.fmt_args(fmts))
+            steps.append(f"intermediate create => {ri.exit}")
+        else:
+            ri = drive.run("create", [root] + world.fmt_args(fmts) + [x for nw in ren.values() for x in ("-sf", os.path.join(root, nw))])
+            steps.append(f"intermediate create -sf new names => {ri.exit}")
+        classes.add("intermediate")
+        if ri.internal:
+            cs.violation(classify.internal_key(ri), classify.internal_sig(ri, "create"), {**ctx, **ri.brief()})
+            return
     # ---- create -dr
     same = rng.random() < 0.5
     fm2 = fmts if same else world.gen_formats(rng)
